@@ -396,7 +396,7 @@ func ruleNilMap(c *Ctx) []Obligation {
 			case c.paramOwnerMadeByCallers(fn, base, f, 0):
 				obs = append(obs, ok(R, con, pos, "the owner is a parameter and every call site passes an owner whose "+f.Name()+" is made (constructor result or guarded)"))
 			case c.alwaysMade(owner, f):
-				obs = append(obs, ok(R, con, pos, "every constructor of "+owner.Obj().Name()+" makes this map and nothing stores nil into it"))
+				obs = append(obs, ok(R, con, pos, "every constructor of "+objName(owner.Obj())+" makes this map and nothing stores nil into it"))
 			case c.freshOwner(base, f):
 				obs = append(obs, ok(R, con, pos, "owner freshly built by a constructor that makes the map"))
 			default:
@@ -635,7 +635,7 @@ func ruleAssert(c *Ctx) []Obligation {
 						if f.Keyword == kw {
 							n++
 							if !types.Identical(f.Var.Type(), ta.AssertedType) {
-								bad2 = fmt.Sprintf("%s.%s has type %s", nt.Named.Obj().Name(), f.Var.Name(), typeStr(f.Var.Type()))
+								bad2 = fmt.Sprintf("%s.%s has type %s", objName(nt.Named.Obj()), f.Var.Name(), typeStr(f.Var.Type()))
 							}
 						}
 					}
@@ -657,7 +657,7 @@ func ruleAssert(c *Ctx) []Obligation {
 						if st.Field(i).Name() == name {
 							n++
 							if !types.Identical(st.Field(i).Type(), ta.AssertedType) {
-								bad2 = nt.Named.Obj().Name() + "." + name + " has type " + typeStr(st.Field(i).Type())
+								bad2 = objName(nt.Named.Obj()) + "." + name + " has type " + typeStr(st.Field(i).Type())
 							}
 						}
 					}
@@ -785,9 +785,9 @@ func (c *Ctx) kindGuardsAssert(ta *ssa.TypeAssert, s *Schema) bool {
 		}
 		// which types return k from Kind()?
 		if k == "module" || k == "submodule" {
-			return want.Obj().Name() == "Module"
+			return objName(want.Obj()) == "Module"
 		}
-		if t := s.Keyword[k]; t != nil && t == want && want.Obj().Name() != "Value" {
+		if t := s.Keyword[k]; t != nil && t == want && objName(want.Obj()) != "Value" {
 			return true
 		}
 		return false
